@@ -19,7 +19,7 @@ CONSTANTS Sets, Gs, Reps
 Formats == {"par", "par2"}
 Perms == {"given", "reversed", "rotated", "shuffleA", "shuffleB"}
 Cwds == {"setdir", "parent", "unrelated"}
-Spells == {"rel", "abs", "dotslash", "dblsep", "dotdot", "absdot", "absdblsep", "absdotdot"}
+Spells == {"rel", "abs", "dotslash", "dblsep", "dotdot", "absdot", "absdblsep", "absdotdot", "mixed"}   \* mixed: every path of one command line spelled differently
 Vias == {"lib", "cli"}
 Kernels == {"ssse3", "scalar"}
 Priors == {"fresh", "stale"}    \* stale: the directory already holds longer files under the names Create will write
